@@ -425,8 +425,8 @@ Proof.
     cbv zeta in C2. fold cs1 in C2. rewrite !EP1 in *.
     apply cells_dlink with (d' := p1 + K) in C2; [|intros Hlt; rewrite Hlink by auto; lia].
     destruct (rep_find_some _ _ p1 pt HRep) as (lp & Hlp); [split; [rewrite Ehs, !in_app_iff; left; right; left; auto|auto]|].
-    assert (Hmem2 : forall t, In t hs <-> In t l1' \/ (t = pt \/ t = m) \/ In t l2).
-    { intros t. rewrite Ehs, !in_app_iff. cbn [In]. intuition. }
+    assert (Hmem2 : forall t, In t hs <-> In t l1' \/ In t [pt; m] \/ In t l2).
+    { intros t. rewrite Ehs, !in_app_iff. cbn [In]. tauto. }
     destruct HN as [(Hnn & HlB)|(l2' & X & El2 & EX & HX1 & HXn & Hxst & HB)].
     + (* previous only *)
       assert (Enf : in_range n (m + K) && (st cs1 (m + K) =? EMPTY) = false).
